@@ -40,6 +40,13 @@ def interordinal(k):
     return k, 2 * k, rows
 
 
+def subsets_scale(m, k):
+    """Objects = all k-subsets of m properties (many incomparable rows: concepts with more upper neighbors
+    than properties in their intent)."""
+    rows = [sum(1 << j for j in c) for c in itertools.combinations(range(m), k)]
+    return len(rows), m, rows
+
+
 def with_extras(tab, rng):
     """Inject duplicated / empty / full rows and columns."""
     n, m, rows = tab
@@ -67,6 +74,12 @@ def with_extras(tab, rng):
 
 
 def structured(rng, maxk=6):
+    for m in range(3, min(maxk, 6) + 1):
+        for k in range(2, m - 1):
+            t = subsets_scale(m, k)
+            yield t
+            yield with_extras(t, rng)
+            yield transpose(t)
     for k in range(1, maxk + 1):
         for f in (nominal, contranominal, ordinal, chain_desc, interordinal):
             t = f(k)
